@@ -11,10 +11,10 @@ run=$(grep -o "\-run '\?\^\?[A-Za-z0-9_]*" $demo $D/$M.txt | head -1 | sed "s/.*
 [ -z "$pkgdir" ] && { echo "$ID $M: cannot find package dir"; exit 0; }
 [ -z "$run" ] && run=$(grep -o "^func Test[A-Za-z0-9_]*" $demo | head -1 | sed 's/func //')
 cp $demo $pkgdir/zz_${M}_demo_test.go
-clean=$(timeout 300 go test -vet=off -count=1 -run "^$run\$" ./$pkgdir/ 2>&1 | tail -1)
+clean=$(timeout 300 go test -vet=off -count=1 -run "^$run" ./$pkgdir/ 2>&1 | tail -1)
 git apply $D/$M.diff || { echo "$ID $M: diff does not apply"; exit 0; }
 build=$(go build ./... 2>&1 | tail -1)
-mut=$(timeout 300 go test -vet=off -count=1 -run "^$run\$" ./$pkgdir/ 2>&1 | tail -1)
+mut=$(timeout 300 go test -vet=off -count=1 -run "^$run" ./$pkgdir/ 2>&1 | tail -1)
 rm -f $pkgdir/zz_${M}_demo_test.go
 pkgt=$(timeout 600 go test -vet=off -count=1 ./$pkgdir/ 2>&1 | grep "^--- FAIL" | tr '\n' ' ')
 git checkout -q -- . ; git clean -fdq
